@@ -23,14 +23,14 @@ const (
 func C15(c *Ctx) {
 	r := c.R
 	r.Explain = "Decided statically: (R1) in node.executeOperation every board post and the OperationProcessed write-back lie behind: Event not empty, a successful pool lookup by operation.ID, and storedOperation.Equal(operation)==nil; (R2) Operation.Equal returns nil only past comparisons of ID, Type and Payload of the two operands; " +
-		"(R3) each posted message gets SenderAddr from the node's user name, then Signature = signMessage(message.Bytes()) computed after the sender overwrite, is stored back at its index, and the slice sent is that slice; (R4) the operation is retired after a successful post (DeleteOperation on the success path, tombstone written before the pool rewrite, a tombstoned id is refused, GetOperations/PutOperation filter by tombstones); " +
+		"(R3) each posted message gets SenderAddr from the node's user name, then Signature = signMessage(message.Bytes()) computed after the sender overwrite, is stored back at its index, and the slice sent is that slice; (R4) the operation is retired after a successful post (DeleteOperation on the success path, tombstone written before the pool rewrite, a tombstoned id is refused, GetOperations/PutOperation filter by tombstones, the tombstone list is rewritten whole and no entry is ever removed from it); " +
 		"(R5) NewOperation derives the id from exactly (round id, payload); (R6) Operation/OperationForm/OperationDTO and Message/MessageForm/MessageDTO agree field-for-field, ProcessOperation copies every DTO field, every (Form,DTO) pair bound in the handlers satisfies go-dto's same-name-same-type rule, and the Operation type closure plus the request/response payload types are JSON round-trip safe. " +
 		"NOT decided: submission histories as executed facts; encoding/json itself."
 	r.Trusted = []string{"encoding/json", "censync/go-dto RequestToDTO semantics (field by name, identical type)", "crypto/ed25519.Sign", "go/ssa"}
 	r.Rule("C15/R1", "check before post: IsEmpty false, GetOperationByID ok, Equal ok dominate Send and the write-back", 6)
 	r.Rule("C15/R2", "Operation.Equal binds ID, Type and Payload", 4)
 	r.Rule("C15/R3", "attribution: sender overwritten, then signed, stored back, same slice sent", 5)
-	r.Rule("C15/R4", "retirement: delete after post, tombstone first, tombstoned id refused, pool filtered by tombstones; concurrent submissions serialised", 7)
+	r.Rule("C15/R4", "retirement: delete after post, tombstone first, tombstoned id refused, pool filtered by tombstones, tombstones never removed; concurrent submissions serialised", 9)
 	r.Rule("C15/R5", "operation id is a function of (round id, payload) only", 1)
 	r.Rule("C15/R7", "the write-back answer (OperationProcessed) is accepted only for a stored reinit operation and is applied to the round the node issued that operation for — Equal does not bind Event, DKGIdentifier or ExtraData of the submitted copy", 2)
 	r.Rule("C15/R6", "file/API round trip: sibling schemas agree, all DTO fields copied, (Form,DTO) pairs bindable, JSON-safe types", 20)
@@ -248,7 +248,30 @@ func c15RepoRules(c *Ctx, rule string) {
 			r.Check(len(tOK) > 0 && !ssax.ReachableAvoiding(del, pool, tOK, nil), rule, "operation.DeleteOperation:tombstone-first", "the tombstone is durable before the pool is rewritten", c.PosOf(pool), "pool rewrite reachable without a successful tombstone write")
 			nf := mapLookupEdges(del, "getDeletedOperations()", false)
 			r.Check(len(nf) > 0 && !ssax.ReachableAvoiding(del, tomb, nf, nil), rule, "operation.DeleteOperation:refuse-retired", "an id that already has a tombstone is refused", c.PosOf(tomb), "tombstone write reachable without the not-yet-deleted test")
+			// what is written back is the stored tombstone list itself (plus the new entry): never a pruned or fresh one
+			vp := ssax.Path(tomb.Common().Args[len(tomb.Common().Args)-1])
+			r.Check(strings.Contains(vp, "json.Marshal(") && strings.Contains(vp, "getDeletedOperations()"), rule, "operation.DeleteOperation:tombstones-rewritten-whole", "the tombstone list written back is the stored list with the new entry added", c.PosOf(tomb),
+				"the value stored under the tombstone key is "+vp+", not the encoding of the list just read: earlier tombstones are lost and their operations can be answered again after a replay")
 		}
+	}
+	// a tombstone is for good: nothing in the repository removes an entry of the tombstone list
+	if sp := c.P.SSAPkg(pkgOpRepo); sp != nil {
+		var prunes []string
+		for f := range c.P.AllFuncs() {
+			if f.Pkg != sp || c.isTestFunc(f) {
+				continue
+			}
+			ssax.Instrs(f, func(in ssa.Instruction) {
+				if call, ok := in.(*ssa.Call); ok {
+					if b, isB := call.Common().Value.(*ssa.Builtin); isB && b.Name() == "delete" && strings.Contains(ssax.Path(call.Common().Args[0]), "getDeletedOperations()") {
+						prunes = append(prunes, f.Name()+" at "+c.PosOf(in))
+					}
+				}
+			})
+		}
+		sort.Strings(prunes)
+		r.Check(len(prunes) == 0, rule, "operation.tombstones:never-removed", "no entry is ever removed from the tombstone list (a retired operation stays retired across replays of the board)", "",
+			"tombstones are deleted in "+strings.Join(prunes, "; ")+": when the board is replayed (offset rewind, reinit) the same operation id is derived again, is pending again, and its answer is accepted and posted a second time")
 	}
 	if get := c.Fn(rule, pkgOpRepo, "BaseOperationRepo", "GetOperations"); get != nil {
 		// every insertion into the returned map is guarded by "id not in deletedOperations"
